@@ -140,38 +140,65 @@ Theorem sl_name_slices pieces :
 Proof. intros H. unfold sl_name. rewrite name_fold_cut by exact H. reflexivity. Qed.
 
 (* ---- record() -> parse() ---- *)
+Lemma factory_recorded_aux s : comp_recorded_length (sl_factory s) = sl_comp_length s.
+Proof.
+  unfold sl_comp_length, is_special, sl_factory.
+  destruct (zlist_eqb s s_dot); [reflexivity|]. destruct (zlist_eqb s s_dotdot); [reflexivity|].
+  destruct (zlist_eqb s s_slash); reflexivity.
+Qed.
 Definition norm_comp (c : comp) : comp :=
   if flag_set (c_flags c) 1 then mk_comp 2 0 [] else if flag_set (c_flags c) 2 then mk_comp 4 0 []
   else if flag_set (c_flags c) 3 then mk_comp 8 0 [] else c.
 (* the components _new_symlink can build *)
 Definition made (c : comp) : Prop :=
-  exists s, zlen s <= 255 /\
-    (c = sl_factory s \/ c = sl_factory_lit s \/ c = comp_set_continued (sl_factory_lit s)).
+  exists s, c = sl_factory s \/ c = sl_factory_lit s \/ c = comp_set_continued (sl_factory_lit s).
 
-Lemma norm_made c : made c ->
+Lemma made_recorded_ge c : made c -> 2 <= comp_recorded_length c.
+Proof.
+  intros (s & H). pose proof (zlen_nonneg s).
+  destruct H as [-> | [-> | ->]]; [rewrite factory_recorded_aux|..].
+  - unfold sl_comp_length. destruct (is_special s); lia.
+  - unfold comp_recorded_length, sl_factory_lit. cbn [c_flags c_len]. change (flag_set 0 1) with false.
+    change (flag_set 0 2) with false. change (flag_set 0 3) with false. cbn [orb]. lia.
+  - unfold comp_recorded_length, sl_factory_lit, comp_set_continued. cbn [c_flags c_len]. change (Z.lor 0 1) with 1.
+    change (flag_set 1 1) with false. change (flag_set 1 2) with false. change (flag_set 1 3) with false. cbn [orb]. lia.
+Qed.
+
+Lemma norm_made c : made c -> comp_recorded_length c <= 255 ->
   sl_comp_ok (norm_comp c) = true /\ sl_comp_enc (norm_comp c) = sl_comp_enc c /\
   comp_name (norm_comp c) = comp_name c /\ comp_is_continued (norm_comp c) = comp_is_continued c /\
-  comp_recorded_length (norm_comp c) = comp_recorded_length c /\ sl_comp_packable c = true.
+  comp_recorded_length (norm_comp c) = comp_recorded_length c /\ sl_comp_packable c = true /\
+  zlen (sl_comp_enc c) = comp_recorded_length c.
 Proof.
-  intros (s & Hl & H). pose proof (zlen_nonneg s) as Hn.
-  assert (Plain : forall f, f = 0 \/ f = 1 ->
+  intros (s & H) Hr. pose proof (zlen_nonneg s) as Hn.
+  assert (Plain : forall f, f = 0 \/ f = 1 -> comp_recorded_length (mk_comp f (zlen s) s) <= 255 ->
             sl_comp_ok (norm_comp (mk_comp f (zlen s) s)) = true /\
             sl_comp_enc (norm_comp (mk_comp f (zlen s) s)) = sl_comp_enc (mk_comp f (zlen s) s) /\
             comp_name (norm_comp (mk_comp f (zlen s) s)) = comp_name (mk_comp f (zlen s) s) /\
             comp_is_continued (norm_comp (mk_comp f (zlen s) s)) = comp_is_continued (mk_comp f (zlen s) s) /\
             comp_recorded_length (norm_comp (mk_comp f (zlen s) s)) = comp_recorded_length (mk_comp f (zlen s) s) /\
-            sl_comp_packable (mk_comp f (zlen s) s) = true).
-  { intros f [-> | ->]; (repeat split; try reflexivity);
-      unfold norm_comp, sl_comp_ok, sl_comp_packable; cbn [c_flags c_len c_data];
-      try change (flag_set 0 1) with false; try change (flag_set 0 2) with false; try change (flag_set 0 3) with false;
-      try change (flag_set 1 1) with false; try change (flag_set 1 2) with false; try change (flag_set 1 3) with false;
-      cbn [c_flags c_len c_data orb]; rewrite ?Z.eqb_refl;
-      replace (u8_ok (zlen s)) with true by (unfold u8_ok; lia); reflexivity. }
+            sl_comp_packable (mk_comp f (zlen s) s) = true /\
+            zlen (sl_comp_enc (mk_comp f (zlen s) s)) = comp_recorded_length (mk_comp f (zlen s) s)).
+  { intros f Hf Hl.
+    assert (Hl' : zlen s <= 253).
+    { destruct Hf as [-> | ->]; unfold comp_recorded_length in Hl; cbn [c_flags c_len] in Hl;
+        [change (flag_set 0 1) with false in Hl; change (flag_set 0 2) with false in Hl; change (flag_set 0 3) with false in Hl
+        |change (flag_set 1 1) with false in Hl; change (flag_set 1 2) with false in Hl; change (flag_set 1 3) with false in Hl];
+        cbn [orb] in Hl; lia. }
+    destruct Hf as [-> | ->]; (repeat split; try reflexivity);
+      try (unfold norm_comp, sl_comp_ok, sl_comp_packable; cbn [c_flags c_len c_data];
+           try change (flag_set 0 1) with false; try change (flag_set 0 2) with false; try change (flag_set 0 3) with false;
+           try change (flag_set 1 1) with false; try change (flag_set 1 2) with false; try change (flag_set 1 3) with false;
+           cbn [c_flags c_len c_data orb]; rewrite ?Z.eqb_refl;
+           replace (u8_ok (zlen s)) with true by (unfold u8_ok; lia); reflexivity);
+      [change (sl_comp_enc (mk_comp 0 (zlen s) s)) with ([0; zlen s] ++ s)
+      |change (sl_comp_enc (mk_comp 1 (zlen s) s)) with ([1; zlen s] ++ s)];
+      rewrite zlen_app; reflexivity. }
   destruct H as [-> | [-> | ->]].
-  - destruct (factory_cases s) as [[-> ->]|[[-> ->]|[[-> ->]| -> ]]]; try (repeat split; reflexivity).
-    apply Plain. left; reflexivity.
-  - apply Plain. left; reflexivity.
-  - apply Plain. right; reflexivity.
+  - destruct (factory_cases s) as [[-> ->]|[[-> ->]|[[-> ->]| E ]]]; try (repeat split; reflexivity).
+    rewrite E in *. apply Plain; [left; reflexivity|exact Hr].
+  - apply Plain; [left; reflexivity|exact Hr].
+  - apply Plain; [right; reflexivity|exact Hr].
 Qed.
 
 Lemma sl_name_ext : forall a b st, map comp_name a = map comp_name b ->
@@ -191,14 +218,29 @@ Proof. unfold sl_current_length. cbn [sl_comps]. apply fold_left_sum. Qed.
 
 (* record() -> parse() of any components _new_symlink builds: the parsed components are the normal forms
    (no data on ./../root), name() and is_continued() are unchanged *)
+Lemma sum_member (cs : list comp) c : Forall (fun c => 0 <= comp_recorded_length c) cs -> In c cs ->
+  comp_recorded_length c <= fold_right (fun c acc => comp_recorded_length c + acc) 0 cs.
+Proof.
+  induction 1 as [|x cs Hx Hcs IH]; intros Hin; [destruct Hin|]. cbn [fold_right].
+  assert (0 <= fold_right (fun c acc => comp_recorded_length c + acc) 0 cs)
+    by (clear IH Hin; induction Hcs; cbn [fold_right]; lia).
+  destruct Hin as [->|Hin]; [lia|specialize (IH Hin); lia].
+Qed.
+
 Theorem sl_made_roundtrip fl cs rest :
   u8_ok fl = true -> Forall made cs -> sl_current_length (mk_sl fl cs) <= 255 ->
   rec_sl (mk_sl fl cs) = Some (enc_sl (mk_sl fl cs)) /\
   parse_sl (enc_sl (mk_sl fl cs) ++ rest) = Some (mk_sl fl (map norm_comp cs)) /\
   sl_name (map norm_comp cs) = sl_name cs /\
-  map comp_is_continued (map norm_comp cs) = map comp_is_continued cs.
+  map comp_is_continued (map norm_comp cs) = map comp_is_continued cs /\
+  zlen (enc_sl (mk_sl fl cs)) = sl_current_length (mk_sl fl cs).
 Proof.
-  intros Hf Hm Hl.
+  intros Hf Hm Hl. rewrite current_length_fold in Hl.
+  assert (Hb : Forall (fun c => made c /\ comp_recorded_length c <= 255) cs).
+  { assert (Hnn : Forall (fun c => 0 <= comp_recorded_length c) cs).
+    { apply Forall_forall. intros c Hc. pose proof (made_recorded_ge c (proj1 (Forall_forall _ _) Hm c Hc)). lia. }
+    apply Forall_forall. intros c Hc. split; [exact (proj1 (Forall_forall _ _) Hm c Hc)|].
+    pose proof (sum_member cs c Hnn Hc). lia. }
   assert (A : map comp_name (map norm_comp cs) = map comp_name cs /\
               map comp_is_continued (map norm_comp cs) = map comp_is_continued cs /\
               map sl_comp_enc (map norm_comp cs) = map sl_comp_enc cs /\
@@ -206,8 +248,8 @@ Proof.
               forallb sl_comp_packable cs = true /\
               fold_right (fun c acc => comp_recorded_length c + acc) 0 (map norm_comp cs)
               = fold_right (fun c acc => comp_recorded_length c + acc) 0 cs).
-  { clear Hl. induction Hm as [|c cs Hc Hcs IH]; [repeat split; reflexivity|].
-    destruct IH as (I1 & I2 & I3 & I4 & I5 & I6). destruct (norm_made c Hc) as (N1 & N2 & N3 & N4 & N5 & N6).
+  { clear Hl Hm. induction Hb as [|c cs [Hc Hc2] Hcs IH]; [repeat split; reflexivity|].
+    destruct IH as (I1 & I2 & I3 & I4 & I5 & I6). destruct (norm_made c Hc Hc2) as (N1 & N2 & N3 & N4 & N5 & N6 & _).
     cbn [map forallb fold_right]. rewrite I1, I2, I3, I4, I5, I6, N1, N2, N3, N4, N5, N6. repeat split; reflexivity. }
   destruct A as (A1 & A2 & A3 & A4 & A5 & A6).
   assert (Ecur : sl_current_length (mk_sl fl (map norm_comp cs)) = sl_current_length (mk_sl fl cs))
@@ -215,36 +257,38 @@ Proof.
   assert (Eenc : enc_sl (mk_sl fl (map norm_comp cs)) = enc_sl (mk_sl fl cs)).
   { unfold enc_sl. rewrite Ecur. cbn [sl_comps sl_flags]. rewrite A3. reflexivity. }
   assert (Hok : sl_ok (mk_sl fl (map norm_comp cs)) = true).
-  { unfold sl_ok. cbn [sl_flags sl_comps]. rewrite Hf, A4, Ecur. cbn [andb]. lia. }
+  { unfold sl_ok. cbn [sl_flags sl_comps]. rewrite Hf, A4, Ecur, current_length_fold. cbn [andb]. lia. }
   destruct (sl_roundtrip _ rest Hok) as (R & P & Z). rewrite Eenc in P, Z. rewrite Ecur in Z.
-  split; [|split; [exact P|split; [|exact A2]]].
+  split; [|split; [exact P|split; [|split; [exact A2|exact Z]]]].
   - unfold rec_sl. cbn [sl_flags sl_comps]. rewrite Hf, A5.
     assert (5 <= sl_current_length (mk_sl fl cs)).
     { rewrite <- Z. unfold enc_sl. rewrite zlen_app.
       pose proof (zlen_nonneg (concat (map sl_comp_enc (sl_comps (mk_sl fl cs))))).
       change (zlen (sig_SL ++ _)) with 5. lia. }
-    replace (u8_ok (sl_current_length (mk_sl fl cs))) with true by (unfold u8_ok; lia). reflexivity.
+    rewrite current_length_fold in *.
+    replace (u8_ok (5 + fold_right (fun c acc => comp_recorded_length c + acc) 0 cs)) with true by (unfold u8_ok; lia).
+    reflexivity.
   - unfold sl_name. rewrite (sl_name_ext _ _ _ A1 A2). reflexivity.
 Qed.
 
-Lemma lit_made slices : Forall (fun q => zlen q <= 255) slices -> Forall made (lit_comps slices).
+Lemma lit_made slices : Forall made (lit_comps slices).
 Proof.
-  induction 1 as [|s r Hs Hr IH]; [constructor|]. destruct r as [|s2 r].
+  induction slices as [|s r IH]; [constructor|]. destruct r as [|s2 r].
   - constructor; [exists s; auto|constructor].
   - change (lit_comps (s :: s2 :: r)) with (comp_set_continued (sl_factory_lit s) :: lit_comps (s2 :: r)).
     constructor; [exists s; auto|exact IH].
 Qed.
-Lemma slice_made slices : Forall (fun q => zlen q <= 255) slices -> Forall made (slice_comps slices).
+Lemma slice_made slices : Forall made (slice_comps slices).
 Proof.
-  intros H. destruct slices as [|s [|s2 r]]; [constructor| |apply lit_made; exact H].
-  inversion H; subst. constructor; [exists s; auto|constructor].
+  destruct slices as [|s [|s2 r]]; [constructor| |apply lit_made].
+  constructor; [exists s; auto|constructor].
 Qed.
 
 (* pieces of a target cut into slices at ANY place -- a slice may spell "." or ".." --, recorded in one SL entry and
    parsed back, are read by name() as the pieces joined with '/' *)
 Theorem sl_slices_roundtrip fl pieces rest :
   u8_ok fl = true ->
-  Forall (fun sl => sl <> [] /\ Forall (fun q => ~ In 47 q) sl /\ Forall (fun q => zlen q <= 255) sl) pieces ->
+  Forall (fun sl => sl <> [] /\ Forall (fun q => ~ In 47 q) sl) pieces ->
   let cs := flat_map slice_comps pieces in
   sl_current_length (mk_sl fl cs) <= 255 ->
   exists b s', rec_sl (mk_sl fl cs) = Some b /\ parse_sl (b ++ rest) = Some s' /\ sl_flags s' = fl /\
@@ -252,12 +296,11 @@ Theorem sl_slices_roundtrip fl pieces rest :
 Proof.
   intros Hf Hp cs Hl.
   assert (M : Forall made cs).
-  { clear Hl. subst cs. induction Hp as [|sl ps (_ & _ & H) _ IH]; [constructor|]. cbn [flat_map].
-    apply Forall_app. split; [apply slice_made; exact H|exact IH]. }
+  { clear Hl Hp. subst cs. induction pieces as [|sl ps IH]; [constructor|]. cbn [flat_map].
+    apply Forall_app. split; [apply slice_made|exact IH]. }
   destruct (sl_made_roundtrip fl cs rest Hf M Hl) as (R & P & N & _).
   eexists _, _. split; [exact R|]. split; [exact P|]. split; [reflexivity|]. cbn [sl_comps]. rewrite N.
-  apply sl_name_slices. apply Forall_forall. intros sl Hin.
-  destruct (proj1 (Forall_forall _ _) Hp sl Hin) as (A & B & _). auto.
+  apply sl_name_slices. exact Hp.
 Qed.
 
 (* the former witness of c08:symlink-target-not-recovered:piece-starting-with-dot: the name ".b" cut after its
@@ -291,11 +334,7 @@ Theorem sl_empty_target_is_root :
 Proof. split; vm_compute; reflexivity. Qed.
 
 Lemma factory_recorded s : comp_recorded_length (sl_factory s) = sl_comp_length s.
-Proof.
-  unfold sl_comp_length, is_special, sl_factory.
-  destruct (zlist_eqb s s_dot); [reflexivity|]. destruct (zlist_eqb s s_dotdot); [reflexivity|].
-  destruct (zlist_eqb s s_slash); reflexivity.
-Qed.
+Proof. apply factory_recorded_aux. Qed.
 
 (* record() -> parse() of factory-made (uncut) components: the parsed components are the normal forms
    (no data on ./../root) and name() is unchanged; together with sl_name_factory: the target is read back *)
@@ -309,7 +348,7 @@ Proof.
   intros Hf Hs Hl cs.
   assert (M : Forall made cs).
   { subst cs. apply Forall_forall. intros c Hc. apply in_map_iff in Hc. destruct Hc as (s & <- & Hin).
-    exists s. split; [|auto]. pose proof (proj1 (forallb_forall _ _) Hs s Hin). cbv beta in *. lia. }
+    exists s. auto. }
   assert (L : sl_current_length (mk_sl fl cs) = len_sl ss).
   { rewrite current_length_fold. unfold len_sl. rewrite fold_left_sum. f_equal. subst cs. clear.
     induction ss as [|s ss IH]; [reflexivity|]. cbn [map fold_right]. rewrite factory_recorded, IH. reflexivity. }
